@@ -949,3 +949,81 @@ func VH_C07_runBatch_order() {
 	vReach("closed")
 	vReach("end")
 }
+
+//verif:check C11,C08,C17 sched=coop maxsteps=2500000 onunwind=violation stubs=rt,timers,valuefile,abslog onblock=violation reach=removal-submitted,leader-stepped-down,new-leader-removes,closed,end desc="three real nodes end to end through the removal of the leader: a ChangeConfig task marks the leader for removal; it appends the configuration without itself, keeps leading only until that commits, then steps down and shuts itself down with the node-removed error (not before the commit); the remaining voters have adopted and stored the two-voter configuration; after an election timeout one of them is elected by the other and leads without a replication to the removed node. Every configuration in the log differs from its predecessor by at most one voter and keeps a voter; the survivors end with the committed stable two-voter configuration and equal logs" bounds="3 voters, logs of 3 entries; one election timeout; ShutdownOnRemove on; round-robin goroutine schedule"
+func VH_C11_cluster3_remove_leader() {
+	cfgE := vClusterConfig().encode()
+	cfgE.index, cfgE.term = 1, 1
+	e2 := &entry{index: 2, term: 1, typ: entryUpdate, data: vBytes("payload2", 1)}
+	e3 := &entry{index: 3, term: 2, typ: entryUpdate, data: vBytes("payload3", 1)}
+	c := vNewCluster()
+	for id := uint64(1); id <= 3; id++ {
+		r := c.add(id, []*entry{cfgE, e2, e3}, 3, 1, 2)
+		r.shutdownOnRemove = true
+	}
+	L, N := c.nodes[1], c.nodes[2]
+	L.state, L.leader = Leader, 1
+	c.wire()
+	c.start(2) // node 2's loop runs on the main goroutine; node 1 (the leader to be removed) on its own
+	nc := vClusterConfig()
+	n1 := nc.Nodes[1]
+	n1.Action = Remove
+	nc.Nodes[1] = n1
+	t := changeConfig{task: newTask(), newConf: nc}
+	step := 0
+	var removedAt uint64
+	vSetIdleHook(func() {
+		switch step {
+		case 0:
+			vAssert(L.state == Leader && L.commitIndex == 4, "X-settled")
+			t.newConf.Index, t.newConf.Term = L.configs.Latest.Index, L.configs.Latest.Term
+			vOffer(L.taskCh, t)
+			vReach("removal-submitted")
+		case 1:
+			vAssert(isClosed(t.Done()) && t.Err() == nil, "X-change-task-completed")
+			_, still := L.configs.Latest.Nodes[1]
+			vAssert(!still && L.configs.IsCommitted(), "X-leader-removed-itself-and-that-committed")
+			vAssert(L.state == Follower && L.leader == 0, "X-removed-leader-stops-leading-once-that-commits")
+			vAssert(L.isClosed() && L.closeReason == ErrNodeRemoved, "X-removed-node-shut-itself-down-after-the-commit")
+			removedAt = L.configs.Latest.Index
+			vAssert(L.commitIndex >= removedAt, "X-shutdown-only-after-its-removal-committed-on-it")
+			for _, id := range []uint64{2, 3} {
+				r := c.nodes[id]
+				vAssert(r.state == Follower && r.configs.Latest.Index == removedAt && r.configs.Latest.numVoters() == 2, "X-voters-adopted-the-removal")
+				vAssert(r.lastLogIndex >= removedAt, "X-removal-is-stored-on-the-remaining-voters")
+			}
+			vReach("leader-stepped-down")
+			vAssert(vFire(N.timer), "X-voter-timer-armed")
+		case 2:
+			vAssert(N.state == Leader && N.term == 4, "X-remaining-voter-elected")
+			vReach("new-leader-removes")
+			_, still := N.configs.Latest.Nodes[1]
+			vAssert(!still && N.configs.IsCommitted() && N.configs.IsStable() && N.configs.Latest.numVoters() == 2, "X-survivors-run-the-two-voter-configuration")
+			vAssert(len(N.ldr.repls) == 1, "X-no-replication-to-the-removed-node")
+			// configuration chain in the new leader's log
+			prev := vClusterConfig()
+			for k, b := range c.logs[2].ents {
+				e := &entry{}
+				if err := e.decode(bytes.NewReader(b)); err != nil {
+					panic(err)
+				}
+				if e.typ != entryConfig || k == 0 {
+					continue
+				}
+				var cf Config
+				if err := cf.decode(e); err != nil {
+					panic(err)
+				}
+				vAssert(vPopcount(vVotersOf(prev)^vVotersOf(cf)) <= 1 && cf.numVoters() >= 1, "X-configurations-differ-by-at-most-one-voter")
+				prev = cf
+			}
+			vAssert(c.nodes[3].lastLogIndex == N.lastLogIndex && vLogsEqual(c.logs[2], c.logs[3], N.lastLogIndex) && c.nodes[3].commitIndex == N.commitIndex, "X-survivors-converge")
+			c.closeAll()
+		}
+		step++
+	})
+	N.stateLoop()
+	vReach("closed")
+	vAssert(step >= 3, "script-completed")
+	vReach("end")
+}
